@@ -220,6 +220,8 @@ def run(ck):
     import c04
     with ck.under("C04-", "C09-C04"):
         c04.rule_X(ck, lib)
+        # <number>,"<description>": the description is written by the string quoting rule, whatever it contains
+        c04.rule_Q(ck, lib)
 
 
 def queue_api_the_library_never_calls(lib):
